@@ -13,7 +13,7 @@ pub const TOKENS: &[&[u8]] = &[
     b"\"", b"\\", b"---\n", b"...\n", b"%", "é".as_bytes(), "€".as_bytes(), b"\xef\xbb\xbf", b"\xff", b"\xc3", b"\x00",
 ];
 
-pub const TARGETS: [&str; 15] = [
+pub const TARGETS: [&str; 17] = [
     "Tree",
     "serde_json::Value",
     "IgnoredAny",
@@ -29,6 +29,8 @@ pub const TARGETS: [&str; 15] = [
     "Spanned<Tree>",
     "struct{a:RcAnchor<Tree>,w:Option<RcWeakAnchor<Tree>>}",
     "Vec<Option<String>>",
+    "a type whose Deserialize impl reads nothing",
+    "a visitor that asks a mapping for a value before any key",
 ];
 
 pub const ENTRIES: [&str; 9] = [
@@ -120,6 +122,35 @@ pub struct S {
 pub struct Anch {
     a: RcAnchor<Tree>,
     w: Option<RcWeakAnchor<Tree>>,
+}
+
+/// legal but unusual: reads nothing from the deserializer
+#[derive(Debug)]
+pub struct Inert;
+impl<'de> Deserialize<'de> for Inert {
+    fn deserialize<D: serde::Deserializer<'de>>(_d: D) -> Result<Self, D::Error> {
+        Ok(Inert)
+    }
+}
+/// asks for a mapping and requests a value before it has seen a key
+#[derive(Debug)]
+pub struct EagerValue;
+impl<'de> Deserialize<'de> for EagerValue {
+    fn deserialize<D: serde::Deserializer<'de>>(d: D) -> Result<Self, D::Error> {
+        struct V;
+        impl<'de> serde::de::Visitor<'de> for V {
+            type Value = EagerValue;
+            fn expecting(&self, f: &mut std::fmt::Formatter) -> std::fmt::Result {
+                write!(f, "a mapping")
+            }
+            fn visit_map<A: serde::de::MapAccess<'de>>(self, mut m: A) -> Result<EagerValue, A::Error> {
+                let _: IgnoredAny = m.next_value()?;
+                while m.next_entry::<IgnoredAny, IgnoredAny>()?.is_some() {}
+                Ok(EagerValue)
+            }
+        }
+        d.deserialize_map(V)
+    }
 }
 
 /// What one execution produced: the errors it returned (several for the iterator), and how many Ok items.
@@ -214,6 +245,8 @@ pub fn exec_opts(input: &[u8], target: u8, entry: u8, o: serde_saphyr::Options) 
         11 => run_owned::<BTreeMap<String, Vec<i32>>>(input, entry, o),
         12 => run_owned::<Spanned<Tree>>(input, entry, o),
         13 => run_owned::<Anch>(input, entry, o),
+        15 => run_owned::<Inert>(input, entry, o),
+        16 => run_owned::<EagerValue>(input, entry, o),
         _ => run_owned::<Vec<Option<String>>>(input, entry, o),
     }
 }
